@@ -401,7 +401,7 @@ class World:
 
     def fsm_of(self, sock) -> str:
         try:
-            for peer in self.reactor._peers.values():
+            for peer in self.peers_map().values():
                 if peer.proto and peer.proto.connection and peer.proto.connection.io is sock:
                     return peer.fsm.name()
         except Exception:
@@ -580,8 +580,8 @@ class World:
     # -- stepping ----------------------------------------------------------------------------------
     def digest(self):
         peers = []
-        for key in sorted(self.reactor._peers):
-            p = self.reactor._peers[key]
+        for key in sorted(self.peers_map()):
+            p = self.peers_map()[key]
             peers.append((key, int(p.fsm.state), p.proto is not None, p._teardown, p.neighbor.rib.outgoing.pending() if p.neighbor.rib else None))
         socks = tuple((len(s.tx), sum(len(d) for _, _, d in s.tx), s.consumed, len(s.rx), s.closed, s.connected) for s in self.sockets)
         timers = tuple(sorted(round(h.when() - self.clock.now, 6) for h in self.loop._scheduled if not h.cancelled()))
@@ -661,9 +661,24 @@ class World:
         self.lsock.queue.append(s)
         return s
 
+    def peers_map(self) -> dict:
+        """{peer name: Peer} of the reactor (its private table; found by content if it was renamed)."""
+        m = getattr(self.reactor, '_peers', None)
+        if isinstance(m, dict):
+            return m
+        from exabgp.reactor.peer import Peer
+
+        for v in vars(self.reactor).values():
+            if isinstance(v, dict) and v and all(isinstance(x, Peer) for x in v.values()):
+                return v
+        for v in vars(self.reactor).values():
+            if isinstance(v, dict) and not v:
+                continue
+        return {}
+
     def peer(self, index: int = 0):
-        keys = sorted(self.reactor._peers)
-        return self.reactor._peers[keys[index]] if keys else None
+        keys = sorted(self.peers_map())
+        return self.peers_map()[keys[index]] if keys else None
 
     def loop_exceptions(self) -> list:
         gc.collect(1)
